@@ -179,7 +179,7 @@ def struct_cases(draw):
 
 
 def campaign_lazystruct(ctx):
-    ctx.search(struct_cases(), struct_oracle(ctx), ctx.budget(5000, 200000))
+    ctx.search(struct_cases(), struct_oracle(ctx), ctx.budget(20000, 200000))
 campaign_lazystruct.shards = (4, 16)
 
 
@@ -299,7 +299,7 @@ def array_cases(draw):
 
 
 def campaign_lazyarray(ctx):
-    ctx.search(array_cases(), array_oracle(ctx), ctx.budget(4000, 160000))
+    ctx.search(array_cases(), array_oracle(ctx), ctx.budget(16000, 160000))
 campaign_lazyarray.shards = (3, 16)
 
 
@@ -357,7 +357,7 @@ def lazy_cases(draw):
 
 
 def campaign_lazy(ctx):
-    ctx.search(lazy_cases(), lazy_oracle(ctx), ctx.budget(4000, 160000))
+    ctx.search(lazy_cases(), lazy_oracle(ctx), ctx.budget(16000, 160000))
 campaign_lazy.shards = (3, 16)
 
 
